@@ -224,7 +224,7 @@ var pureStdlib = map[string]bool{"strconv": true, "strings": true, "path": true,
 
 // expandedScope: the functions of the generator whose source the abstract expansion evaluates for every variant,
 // in both modes (generateFlow, generateParallel and what they call). What the source-map flag does there is
-// decided semantically by T3 (same tokens in both modes); elsewhere (GenerateFile, the magic-token pass) only this
+// decided semantically by T5 (same tokens in both modes); elsewhere (GenerateFile, the magic-token pass) only this
 // syntactic rule looks.
 func (c *ctx) expandedScope() map[*ast.FuncDecl]bool {
 	out := map[*ast.FuncDecl]bool{}
@@ -388,7 +388,7 @@ func (c *ctx) modeFlag() {
 			}
 			bad := c.commentOnly(fc, region, allowedCalls, 0)
 			if bad != "" && scope[fc.funcDecl(is)] && !strings.HasPrefix(bad, "source-map mode emits text that is not a Go comment: \"") {
-				c.s.OK("G16", key, c.pos(is), "not a shape this syntactic rule reads ("+bad+"); the function is evaluated in both modes for every expanded variant and the outputs are compared token by token (T3)")
+				c.s.OK("G16", key, c.pos(is), "not a shape this syntactic rule reads ("+bad+"); the function is evaluated in both modes for every expanded variant and the outputs are compared token by token (T5)")
 				return true
 			}
 			if bad != "" {
@@ -441,7 +441,7 @@ func (c *ctx) modeFlag() {
 				}
 			}
 			if scope[fc.funcDecl(se)] {
-				c.s.OK("G16", fc.funcName(se)+"|source-map flag in a compound condition or expression", c.pos(se), "consulted inside the code the expansion evaluates in both modes: decided by T3")
+				c.s.OK("G16", fc.funcName(se)+"|source-map flag in a compound condition or expression", c.pos(se), "consulted inside the code the expansion evaluates in both modes: decided by T5")
 				return true
 			}
 			c.s.Bad("G16", fc.funcName(se)+"|source-map flag in a compound condition or expression", c.pos(se), "the source-map flag is consulted other than as the sole condition of a comment-only branch: source-map output can differ from base output in more than comments")
